@@ -1,6 +1,7 @@
 package rules
 
 import (
+	"go/types"
 	"fmt"
 	"go/token"
 	"os"
@@ -152,7 +153,21 @@ func checkC08(rep *core.Report) {
 		allInstrs(validate, func(ins ssa.Instruction) {
 			if b, ok := ins.(*ssa.BinOp); ok {
 				if c, isC := ssaConstInt(b.Y); isC {
-					got[fmt.Sprintf("%s %s %d", fieldLoadName(b.X), b.Op, c)] = true
+					name := fieldLoadName(b.X)
+					// the value tested is the field itself: a narrowing conversion on the way tests only some of its bits
+					for v := b.X; ; {
+						cv, isConv := v.(*ssa.Convert)
+						if !isConv {
+							break
+						}
+						sb, ok1 := cv.X.Type().Underlying().(*types.Basic)
+						db, ok2 := cv.Type().Underlying().(*types.Basic)
+						if ok1 && ok2 && intBits(db) < intBits(sb) {
+							name = "narrowed(" + name + ")"
+						}
+						v = cv.X
+					}
+					got[fmt.Sprintf("%s %s %d", name, b.Op, c)] = true
 				}
 			}
 		})
